@@ -11,6 +11,7 @@ import Rare.Proofs.C09WF
 import Rare.Proofs.C09WFB
 import Rare.Proofs.C09WFAll
 import Rare.Proofs.C09Pos
+import Rare.Proofs.C09All
 import Rare.Gen.Tables
 /-!
 Property C09 – template syntax: literals, escapes, quotes and nesting parse as documented.
@@ -551,6 +552,42 @@ theorem syntax_errors_nil_iff_wellformed (known : List Char → Bool) (t : List 
     synErrs splitArgs known t = [] ↔ WellFormed splitArgs known t :=
   synErrs_nil_iff_wf splitArgs known (fun _ _ h => splitArgs_length h) (t.length + 1) t (by omega)
 
+/-! ### round 4c: the complete error list, builder errors included -/
+
+/-- **The COMPLETE error list, builder errors included** – for ALL templates, optimiser on or off, and every
+    registry with an arity signature (`HasSig reg sig`: the same names, and every builder's error value is a
+    function of the NUMBER of its arguments – rare's "invalid number of arguments"; instances below): whenever
+    `Compile` returns, the recorded errors – every one of them, in the order recorded (`repOf` only renames the
+    kinds) – ARE `allErrs splitArgs sig t`, the declarative list of `Spec/C09All.lean` (no reference to `Compile`):
+    `synErrs` with, for every closed statement whose head is registered, the builder's error AFTER the errors of
+    its arguments, carrying the statement's body and the index of its `{` (inherited like every other error). -/
+theorem all_errors_exact_arity (reg : Registry) (sig : Sig) (hsig : HasSig reg sig) (opt : Bool) (t : List Char)
+    (stages : List Stage) (errs : List CErr) (h : compile reg opt t = .ok (stages, errs)) :
+    errs.map repOf = allErrs splitArgs sig t :=
+  compileF_all reg opt sig hsig (t.length + 1) t stages errs h
+
+/-- The recursion equation of `allErrs`, as its header says (fuel is irrelevant). -/
+theorem all_errors_unfold (sig : Sig) (t : List Char) :
+    allErrs splitArgs sig t =
+      (stmts t).flatMap (stmtErrsA splitArgs sig (allErrs splitArgs sig) t) ++ (openErr t).map RepErr.ofSyn :=
+  allErrs_unfold_gen splitArgs sig (fun _ _ h => splitArgs_length h) t
+
+/-- The two specifications agree: dropping the builder errors from `allErrs` leaves `synErrs` (for the names the
+    signature knows) – a statement about the specs alone. -/
+theorem all_errors_syntax_part (sig : Sig) (t : List Char) :
+    (allErrs splitArgs sig t).filterMap RepErr.synPart = synErrs splitArgs (fun n => (sig n).isSome) t :=
+  allErrsF_synPart splitArgs sig (t.length + 1) t
+
+/-- **Registries with an arity signature**: the probe registry of the correspondence (`bad` / `nil` fail whatever
+    the arguments), and the STANDARD table restricted to 33 of its names (`arityNames`: the logic family, the
+    unary string / number helpers, `like prefix suffix select substr`, `@len @map @filter @for`, the joiners) –
+    each builder is literally the one `stdTable` registers, and its only error is `<ARGN>`. -/
+theorem arity_signatures :
+    HasSig testRegistry testSig ∧ HasSig arityRegistry aritySig ∧
+    (∀ p ∈ arityNames, ∃ f, lookupTable stdTable p.1 = some f ∧ ArityOnly f p.2) ∧
+    arityNames.length = 33 ∧ (arityNames.map (·.1)).all (Gen.stdFunctionNames.contains ·) = true :=
+  ⟨testRegistry_hasSig, arityRegistry_hasSig, arityAll_mem arityNames_all, by decide +kernel, by decide +kernel⟩
+
 /-- **What the positions are.**  The statements `stmts t` of the error spec are the statements of the grammar
     (`bodies`, same order); each starts at a rune that is `{` and ends at a later rune that is `}`; they are listed
     left to right and do not overlap; the open statement (if any) starts at a `{` too, and there is one iff the
@@ -955,5 +992,20 @@ example : evalW sampleWorld (.call "timeformat".toList [.lit "1700000000".toList
     evalW sampleWorld (.call "timeattr".toList [.lit "1700000000".toList, .lit "yearweek".toList]) emptyCtx = ascii "2023-46" ∧
     evalW sampleWorld (.call "durationformat".toList [.call "duration".toList [.lit "1h1m1s".toList]]) emptyCtx = ascii "1h1m1s" := by
   refine ⟨?_, ?_, ?_⟩ <;> decide +kernel
+
+/-! ### examples for the complete error list -/
+
+/-- `ab{f {bad y {}} {nil 1}}` (probe registry): the argument's own errors first (`{}` inside `bad …`), then the
+    builder error of `bad`, then that of `nil` – all three with the index of the top-level `{` (2). -/
+example : allErrs splitArgs testSig "ab{f {bad y {}} {nil 1}}".toList =
+    [⟨.syn .emptyStatement, "{}".toList, 2⟩, ⟨.builder "argcount", "bad y {}".toList, 2⟩,
+     ⟨.builder "argcount", "nil 1".toList, 2⟩] := by decide +kernel
+
+/-- The standard table (arity names): `{not a b}{eq x}{switch {len a b} 1 2 3}{nofn 1 2}{` – two arity errors, the arity
+    error of the argument `{len a b}` of a `switch` that itself is fine, an unknown function, an open statement. -/
+example : allErrs splitArgs aritySig "{not a b}{eq x}{switch {len a b} 1 2 3}{nofn 1 2}{".toList =
+    [⟨.builder "argcount", "not a b".toList, 0⟩, ⟨.builder "argcount", "eq x".toList, 9⟩,
+     ⟨.builder "argcount", "len a b".toList, 15⟩,
+     ⟨.syn .missingFunction, "nofn 1 2".toList, 39⟩, ⟨.syn .unterminated, "{".toList, 49⟩] := by decide +kernel
 
 end Rare.C09
